@@ -96,6 +96,17 @@ impl Drop for Val {
     }
 }
 
+/// A zero-sized item (streams of `()`-like ticks). It cannot carry an identity: the leaf that "produces" it books a
+/// virtual value for the models, and a harvested `Unit` shows up as `UNIT_ID` (so that row lengths stay checkable).
+#[derive(Debug)]
+pub struct Unit;
+pub const UNIT_ID: u32 = u32::MAX - 1;
+impl Harvest for Unit {
+    fn harvest(&self, out: &mut Vec<(u32, u32)>) {
+        out.push((UNIT_ID, 0));
+    }
+}
+
 /// What the harness reads out of a root result before dropping it.
 pub trait Harvest {
     fn harvest(&self, out: &mut Vec<(u32, u32)>);
@@ -208,6 +219,9 @@ pub fn harvest_out<T: Harvest>(v: T, base: Res) -> Out {
     let mut bogus = false;
     with(|w| {
         for &(id, canary) in &ids {
+            if id == UNIT_ID {
+                continue;
+            }
             if !w.val_returned(id, canary) {
                 bogus = true;
             }
@@ -527,7 +541,7 @@ impl World {
 }
 
 pub fn leaf_poll_common(id: NodeId, cx: &mut Context<'_>) -> LeafAct {
-    if with(|w| w.log.len() > LOG_LIMIT) {
+    if with(|w| w.log.len() > LOG_LIMIT.max(w.log_limit)) {
         std::panic::panic_any(LogOverflow);
     }
     let act = with(|w| w.leaf_poll(id, cx.waker()));
@@ -710,6 +724,58 @@ impl Stream for SimStream {
                 Poll::Ready(Some(v))
             }
             K::End => {
+                with(|w| w.poll_end(id, Res::None, None));
+                Poll::Ready(None)
+            }
+        }
+    }
+}
+
+/// Stream leaf whose items are zero-sized.
+pub struct UnitStream {
+    pub node: NodeId,
+}
+impl UnitStream {
+    pub fn new(node: NodeId) -> Self {
+        UnitStream { node }
+    }
+}
+impl Drop for UnitStream {
+    fn drop(&mut self) {
+        leaf_dropped(self.node);
+    }
+}
+impl Stream for UnitStream {
+    type Item = Unit;
+    fn poll_next(self: Pin<&mut Self>, cx: &mut Context<'_>) -> Poll<Option<Unit>> {
+        let id = self.node;
+        let act = leaf_poll_common(id, cx);
+        let k = match act.step {
+            Some(Step::Item) | Some(Step::Ready { .. }) => 1,
+            Some(Step::End) => 2,
+            Some(Step::Pend(_)) => 0,
+            Some(Step::Panic) => unreachable!(),
+            None => match act.term {
+                Terminal::Forever => 1,
+                Terminal::Never => 0,
+                Terminal::Finished => 2,
+            },
+        };
+        match k {
+            0 => {
+                with(|w| w.poll_end(id, Res::Pending, None));
+                Poll::Pending
+            }
+            1 => {
+                with(|w| {
+                    // a virtual value: the models need something to count, nobody can return or drop it
+                    let v = w.val_new(id);
+                    w.vals[v as usize].untracked = true;
+                    w.poll_end(id, Res::Some, Some(v));
+                });
+                Poll::Ready(Some(Unit))
+            }
+            _ => {
                 with(|w| w.poll_end(id, Res::None, None));
                 Poll::Ready(None)
             }
